@@ -50,6 +50,11 @@ def norm_vis(v, modpath):
     return "restricted:" + p
 
 
+# implementation details of the built-in derives on this toolchain (doc(hidden), visible with --document-hidden-items):
+# not part of what the EnumTools derive adds
+BUILTIN_DERIVE_ARTIFACTS = {"TrivialClone", "StructuralPartialEq"}
+
+
 def last_seg(path):
     return path.split("::")[-1]
 
@@ -60,7 +65,8 @@ def trait_names(idx, impl_ids):
         im = idx[str(i)]["inner"]["impl"]
         if im.get("is_synthetic") or im.get("blanket_impl") is not None or im.get("trait") is None:
             continue
-        out.append(last_seg(im["trait"]["path"]))
+        if last_seg(im["trait"]["path"]) not in BUILTIN_DERIVE_ARTIFACTS:
+            out.append(last_seg(im["trait"]["path"]))
     return sorted(set(out))
 
 
@@ -128,7 +134,7 @@ def observe(j, crate_cases):
                     items.append({"name": it["name"], "kind": {"function": "fn", "assoc_const": "const"}.get(kind, kind),
                                   "vis": norm_vis(it["visibility"], path),
                                   "isconst": bool(kind == "function" and it["inner"]["function"]["header"]["is_const"])})
-            elif im["for"].get("resolved_path", {}).get("id") == eid:
+            elif im["for"].get("resolved_path", {}).get("id") == eid and last_seg(im["trait"]["path"]) not in BUILTIN_DERIVE_ARTIFACTS:
                 traits.append(last_seg(im["trait"]["path"]))
         for im in foreign:
             if mentions(im["trait"].get("args"), eid):
@@ -162,7 +168,7 @@ def compute(tier, seed):
 
     def doc(cn):
         p = subprocess.run(["cargo", "rustdoc", "--offline", "-p", cn, "--lib", "--", "-Zunstable-options", "--output-format", "json",
-                            "--document-private-items", "--cap-lints", "allow"], cwd=ws, env=env, stdout=subprocess.PIPE, stderr=subprocess.PIPE, text=True)
+                            "--document-private-items", "--document-hidden-items", "--cap-lints", "allow"], cwd=ws, env=env, stdout=subprocess.PIPE, stderr=subprocess.PIPE, text=True)
         if p.returncode != 0:
             raise ToolError(f"cargo rustdoc failed for {cn}:\n{p.stderr[-3000:]}")
         j = json.load(open(os.path.join(run_rt.TARGET, "doc", cn + ".json")))
